@@ -222,7 +222,7 @@ def run(ctx):
     n_rand = 300 if ctx.quick else 6000
     rr = np.random.Generator(np.random.PCG64(ctx.seed + 777))
     cfgs = cfgs + [ts.random_params(rr) for _ in range(n_rand)]
-    sizes = [2, 3, 5, 8] if ctx.quick else [2, 3, 4, 5, 8, 12, 20]
+    sizes = [2, 3, 5, 8, 11] if ctx.quick else [2, 3, 4, 5, 8, 11, 12, 20]
     for j, p in enumerate(cfgs):
         if not ctx.mine(j):
             continue
